@@ -127,7 +127,7 @@ def variants(cfgname, rng):
     for bad in () if not chunk_ok else (b"g\r\n", b"\r\n", b"4 \r\n", b"4x\r\n", b"00000000000000004\r\n", b"ffffffffffffffff\r\n", b";x\r\n", b"-4\r\n"):
         data = b"POST / HTTP/1.1\r\nHost: a\r\nTransfer-Encoding: chunked\r\n\r\n" + bad + b"abcd\r\n0\r\n\r\n"
         yield ("chunk-syntax", data, "INVALID code=400", None, None, None)
-    for bad in () if not chunk_ok else (b"XX", b"\rX", b"X\n"):
+    for bad in () if not chunk_ok else (b"XX", b"\rX", b"X\n", b"\r\r\n", b"\r\r\r\n", b"\rX\n", b"\r\r"):
         data = b"POST / HTTP/1.1\r\nHost: a\r\nTransfer-Encoding: chunked\r\n\r\n4\r\nabcd" + bad + b"0\r\n\r\n"
         yield ("chunk-term", data, "INVALID code=400", None, None, None)
     # 13 bare LF under strict
@@ -145,6 +145,95 @@ def variants(cfgname, rng):
         return
     yield ("trace-body", b"TRACE / HTTP/1.1\r\nHost: a\r\nContent-Length: 3\r\n\r\nabc", "INVALID code=400", None, None, None)
     yield ("trace", b"TRACE / HTTP/1.1\r\nHost: a\r\n\r\n", "VALID405", None, None, None)
+
+
+STRUCT_BYTES = [b"\r", b"\n", b" ", b":", b";", b"\t", b"0", b"a", b"A", b"\x00", b"\x80", b"=", b"\""]
+
+
+def mutate(data, rng):
+    """one edit of a well-formed request, biased towards the bytes around the line ends"""
+    brk = [i for i in range(len(data)) if data[i:i + 1] in (b"\r", b"\n")]
+    if brk and rng.chance(2, 3):
+        i = min(len(data) - 1, max(0, rng.choice(brk) + rng.range(-1, 1)))
+    else:
+        i = rng.range(0, len(data) - 1)
+    k = rng.range(0, 3)
+    if k == 0:
+        return data[:i] + data[i:i + 1] + data[i:], "dup"
+    if k == 1:
+        return data[:i] + data[i + 1:], "del"
+    if k == 2:
+        return data[:i] + rng.choice(STRUCT_BYTES) + data[i + 1:], "rep"
+    return data[:i] + rng.choice(STRUCT_BYTES) + data[i:], "ins"
+
+
+def invariance_cases(tier, rng, n0):
+    """near-valid requests whose status nobody wrote down: the verdict of the implementation on the WHOLE byte string
+    is the reference, and when that is a rejection every division into reads must reject in the same way"""
+    cases = []
+    quick = tier == "quick"
+    n = n0
+    bases = [
+        b"GET /a HTTP/1.1\r\nHost: a\r\nX-A: b\r\n c\r\n\r\n",
+        b"POST /p HTTP/1.1\r\nHost: a\r\nContent-Length: 3\r\n\r\nabc",
+        b"POST /c HTTP/1.1\r\nHost: a\r\nTransfer-Encoding: chunked\r\n\r\n3\r\nabc\r\n2;e=f\r\nde\r\n0\r\nT: v\r\n\r\n",
+        b"PUT /c HTTP/1.0\r\nTransfer-Encoding: chunked\r\n\r\n1\r\nx\r\n0\r\n\r\n",
+    ]
+    for cfgname in ("srv", "srvs", "mid", "mids"):
+        cfg = G.REQ_CFGS[cfgname]
+        for base in bases:
+            for _ in range(6 if quick else 150):
+                data, kind = mutate(base, rng)
+                if rng.chance(1, 4):
+                    data, k2 = mutate(data, rng)
+                    kind += "+" + k2
+                cutsets = [[c] for c in range(1, len(data))]
+                if not quick:
+                    cutsets += [[rng.range(1, len(data) - 1), rng.range(1, len(data) - 1)] for _ in range(40)]
+                    cutsets.append(list(range(1, len(data))))
+                cc = rng.choice([0, 1, 1])
+                for cuts in cutsets:
+                    parts = G.cuts_to_parts(data, cuts)
+                    new = cfg.new_line(cont=rng.choice("sv"), cc=cc)
+                    lines = [new, "feed " + hx(data), new] + G.feed_lines(parts)
+                    cases.append(Case("c02-%d" % n, lines, {"class": "near-valid", "inv": True, "nparts": len(parts), "cc": cc,
+                                                            "tags": ["near-valid", kind, cfgname]}))
+                    n += 1
+    return cases
+
+
+def first_verdict(lines):
+    """deliveries up to and including the first rejection"""
+    got = G.deliveries(lines)
+    res = []
+    for g in got:
+        res.append(g)
+        if g.startswith("INVALID") or g.startswith("abort"):
+            break
+    return res
+
+
+def invariance_oracle(case, out):
+    # out: ok, <whole feed>, ok, <split feeds>
+    idx = [i for i, l in enumerate(out) if l == "ok"]
+    if any(l.startswith("abort") for l in out):
+        return "the receiver crashed: " + [l for l in out if l.startswith("abort")][0]
+    if len(idx) < 2:
+        return None
+    whole = first_verdict(out[idx[0] + 1:idx[1]])
+    split = first_verdict(out[idx[1] + 1:])
+    if not whole or not whole[-1].startswith("INVALID") or "code=411" in whole[-1]:
+        return None      # accepted, incomplete, or the inherently read-dependent 411: not in this property's domain
+    if case.meta.get("cc") == 0:
+        # per-chunk delivery: the head of a chunked request is passed on before its chunks arrive
+        whole = [g for g in whole if not (g.startswith("VALID") and "chunked=1" in g and " b=- " in g)]
+        split = [g for g in split if not (g.startswith("VALID") and "chunked=1" in g and " b=- " in g)]
+        whole = [g for g in whole if not g.startswith("CHUNK")]
+        split = [g for g in split if not g.startswith("CHUNK")]
+    if split != whole:
+        return ("a request that is rejected when it arrives in one read (%s) is treated differently when it arrives in %d reads: %s"
+                % ([g[:60] for g in whole], case.meta.get("nparts", 0), [g[:60] for g in split] or "never rejected"))
+    return None
 
 
 def generate(tier, rng):
@@ -183,10 +272,12 @@ def generate(tier, rng):
                     cases.append(Case("c02-%d" % n, lines, {"expect": exp, "class": cls, "nparts": len(parts), "cc": cc,
                                                             "tags": [cls, "after-offender", cfgname]}))
                     n += 1
-    return cases
+    return cases + invariance_cases(tier, rng.fork("inv"), n)
 
 
 def oracle(case, out):
+    if case.meta.get("inv"):
+        return invariance_oracle(case, out)
     exp = case.meta.get("expect")
     if exp is None:
         return None
